@@ -120,7 +120,7 @@ CLAIMED = {
               'day/year/leap roll-over; CF time from flags decodes to the flags; date2num inverse for standard calendars; '
               'kernel-checked counterexamples for the three recorded findings. Correspondence + independent oracle '
               '(datetime / cftime / independent reference-date parser) on every run.'),
-        note=BASE_NOTE + 'reference-date string parsing is not modelled (the parsed reference is passed to the model; an independent parser and cftime judge the result); timedelta microsecond rounding is trusted.',
+        note=BASE_NOTE + 'CF time variables are stored as float64, float32 and integers; the 365/366-day finding is matched on decoding failures only. reference-date string parsing is not modelled (the parsed reference is passed to the model; an independent parser and cftime judge the result); timedelta microsecond rounding is trusted.',
         technique='Lean 4 proof (omega over calendar digit decompositions, induction) + model/implementation correspondence + independent oracle',
         design='§7 C12'),
     'C02': dict(
@@ -132,7 +132,7 @@ CLAIMED = {
               'yields in-range indices, ints keep a length-1 axis. Whole-file correspondence (data, masks, attributes, '
               'dimension lengths, errors) with sliceDimensions incl. the pointwise multi-list mode on every run, plus an '
               'independent numpy.take oracle. Three genuine defects repaired by fix: commits.'),
-        note=BASE_NOTE + 'the pointwise (zipped) selection is modelled and compared but has no element-wise theorem yet; keyword order independence is exercised, not proved.',
+        note=BASE_NOTE + 'also exercised: the string front end slice_dim (same model) and ioapi_base.sliceDimensions (numpy.take oracle, TFLAG rows). the pointwise (zipped) selection is modelled and compared but has no element-wise theorem yet; keyword order independence is exercised, not proved.',
         technique='Lean 4 proof (structural induction over nested arrays; omega for slice normalisation) + model/implementation correspondence',
         design='§7 C02'),
     'C03': dict(
@@ -143,7 +143,7 @@ CLAIMED = {
               'cells and give a masked result for an all-masked fiber; variables lacking the named dimensions are unchanged. '
               'Whole-file correspondence (data, masks, dimension and coordinate-variable lengths, integer casting) with '
               'applyAlongDimensions on every run plus a numpy/numpy.ma oracle.'),
-        note=BASE_NOTE + 'commutation of reducers over different axes is exercised (random keyword order, numpy oracle), not proved; std and float32 go through the oracle only; float64 results compared within 1e-12.',
+        note=BASE_NOTE + 'also exercised: reduce_dim / convolve_dim (numpy.ma oracle; Lean model for the modelled reducers) and the IOAPI wrapper (C10 model, level-edge oracle); apply_shape proves the result shape for every rank and axis. commutation of reducers over different axes is exercised (random keyword order, numpy oracle), not proved; std and float32 go through the oracle only; float64 results compared within 1e-12.',
         technique='Lean 4 proof (induction over shape with a cell-wise transposition lemma) + model/implementation correspondence',
         design='§7 C03'),
     'C04': dict(
@@ -153,7 +153,7 @@ CLAIMED = {
               'dimensions, variables without the stack dimension from the first file, argument order, errors) with '
               'PseudoNetCDFFile.stack on split files and on independent files on every run; oracle: stack(split(f)) == f and '
               'slice(stack) == piece on the real code.'),
-        note=BASE_NOTE + 'open_mfdataset / pncmfopen / stack_files front-ends are not exercised yet.',
+        note=BASE_NOTE + 'also exercised: pncmfopen / open_mfdataset on paths in non-sorted order and with repeats (model of the given sequence + oracle), stack_files attribute provenance, IOAPI split/save/stack against the original. open_mfdataset / pncmfopen / stack_files front-ends are not exercised yet.',
         technique='Lean 4 proof (mutual structural induction on nested arrays, induction over the cut list) + model/implementation correspondence',
         design='§7 C04'),
     'C09': dict(
@@ -227,7 +227,7 @@ CLAIMED = {
               'selected sub-range of the source times (time_window, for files whose listable variables are all listed - '
               'slice_keeps_varlist shows a window operation then never changes the list). Correspondence + independent oracle recomputing origin, edges, times and SDATE/STIME/TSTEP '
               'from the source file. One genuine defect repaired (TSTEP of 24 h or more became 0).'),
-        note=BASE_NOTE + 'float32/float64 rounding of XORIG += k*XCELL is not modelled (dyadic cells in the correspondence); PERIM windows of boundary files only through C10.',
+        note=BASE_NOTE + 'integer selectors are passed as python ints and as numpy integers. float32/float64 rounding of XORIG += k*XCELL is not modelled (dyadic cells in the correspondence); PERIM windows of boundary files only through C10.',
         technique='Lean 4 proof (list/arith lemmas over Rat and Int, calendar round-trip) + model/implementation correspondence + independent oracle',
         design='§7 C11'),
     'C07': dict(
@@ -241,7 +241,7 @@ CLAIMED = {
               'mask_lost_counterexample shows what the repaired precedence fixed. Correspondence over four flavours x complevel, '
               'all dtypes incl. char, rank 0-3, five ways of declaring a fill; independent oracle compares the reopened file with '
               'the source. One genuine defect repaired by a fix: commit.'),
-        note=BASE_NOTE + 'bit-identity through netCDF-C/HDF5/zlib and netCDF4 auto-masking rules are observed on every run, not proved; attribute values are opaque tokens.',
+        note=BASE_NOTE + 'attribute tokens carry the storage type (float32/float64, int8/int16) besides the value. bit-identity through netCDF-C/HDF5/zlib and netCDF4 auto-masking rules are observed on every run, not proved; attribute values are opaque tokens.',
         technique='Lean 4 proof (case analysis of the fill/mask logic lifted over lists) + model/implementation correspondence + source-vs-reopened oracle',
         design='§7 C07'),
     'C06': dict(
@@ -253,7 +253,7 @@ CLAIMED = {
               'value. Whole-file correspondence for all 13 operators (int and float, masked operands, zero divisors), all '
               'predicate subsets of mask(), and eval assignments, plus a numpy.ma oracle, on every run. One genuine defect '
               '(masks of masked operands dropped) repaired by a fix: commit; one recorded finding (eval on rank-0 masked variables raises).'),
-        note=BASE_NOTE + 'float64 results compared with exact rationals within 1e-12; eval is modelled for the generated expression grammar (+ - * / unary -, literals), not arbitrary Python; pncexpr / mask_vals front-ends are not exercised.',
+        note=BASE_NOTE + 'eval is exercised into new variables and in place onto existing ones of another type; divisors include tiny non-zero values. float64 results compared with exact rationals within 1e-12; eval is modelled for the generated expression grammar (+ - * / unary -, literals), not arbitrary Python; pncexpr / mask_vals front-ends are not exercised.',
         technique='Lean 4 proof (structural induction on nested arrays; case analysis of predicates) + model/implementation correspondence + numpy.ma oracle',
         design='§7 C06'),
     'C01': dict(
